@@ -162,7 +162,8 @@ func verifC07FlushVsReplica() {
 	})
 	verifJoinAll()
 	_ = f.Flush() // a final flush after both threads are done
-	// what is durable
+	// every durable commit is a possible crash image: at that moment every entry at or below the
+	// sequence stored with the flushed data must already be contained in flushed data
 	var durable []int
 	stored := int64(-1)
 	for i := range out.rows {
@@ -170,10 +171,10 @@ func verifC07FlushVsReplica() {
 		if out.seqs[i] > stored {
 			stored = out.seqs[i]
 		}
-	}
-	for s := 0; s < k; s++ {
-		if int64(s) <= stored {
-			verifAssert(verifContains(durable, s), "every entry at or below the sequence stored with the flushed data is contained in flushed data")
+		for s := 0; s < k; s++ {
+			if int64(s) <= stored {
+				verifAssert(verifContains(durable, s), "every entry at or below the sequence stored with the flushed data is contained in flushed data")
+			}
 		}
 	}
 	for _, a := range out.acks {
